@@ -447,3 +447,51 @@ def c08_r8(ctx):
                 ctx.ob(cls, True, "every attribute read by %s's public methods is bound" % cls.short.split("columns.")[-1], loc=cls.loc)
     if n < 20:
         raise AnalysisError("only %d column classes found" % n)
+
+
+def _emits(node):
+    """a CFG node that writes the row: x.write*(...), x.append/extend(...), or the base writer's add()"""
+    if node.ast is None:
+        return False
+    for e in cfgmod.node_exprs(node):
+        for c in ast.walk(e):
+            if isinstance(c, ast.Call) and isinstance(c.func, ast.Attribute):
+                a = c.func.attr
+                if a.startswith("write") or a in ("append", "extend") or (a == "add" and norm.canon(c.func.value) != "self"):
+                    return True
+    return False
+
+
+@rule("C08", "R9", "K2", "a column writer advances its row counter only for a row it has emitted",
+      min_instances=4, also=("C13",),
+      clause="In every ColumnWriter.add(docnum, v) that assigns self._count: no path from the entry to a normal exit passes through the "
+             "assignment without passing through a statement that emits the row (a write*/append/extend call, or the base writer's add). "
+             "fill() pads with defaults from _count up to the next docnum, so a counter that runs ahead of the emitted rows shifts every "
+             "later value of the segment one slot down (sorting and column reads then return a neighbour's value).")
+def c08_r9(ctx):
+    prog = ctx.prog
+    base = prog.cls("columns.ColumnWriter")
+    n = 0
+    for K in prog.subclasses(base):
+        f = K.methods.get("add")
+        if f is None:
+            continue
+        g = cfgmod.cfg_of(f, exc_edges=False)
+        counts = [x for x in g.nodes if x.ast is not None and isinstance(x.ast, (ast.Assign, ast.AugAssign)) and any(
+            norm.canon(t) == "self._count" for t in (x.ast.targets if isinstance(x.ast, ast.Assign) else [x.ast.target]))]
+        if not counts:
+            continue
+        n += 1
+        ctx.saw(f)
+        for A in counts:
+            if _emits(A):
+                continue
+            before = cfgmod.find_path(g, g.entry, lambda x: x is A, avoid_pred=_emits)
+            after = cfgmod.find_path(g, A, lambda x: x is g.exit, avoid_pred=_emits)
+            bad = before is not None and after is not None
+            ctx.ob(f, not bad, "self._count advances only on paths that emit the row",
+                   detail="a path reaches `%s` and leaves add() without any write/append: %s ... %s"
+                          % (norm.canon(A.ast) if hasattr(norm, "canon") else "", cfgmod.path_text(before or []), cfgmod.path_text(after or [])) if bad else "",
+                   loc=ctx.nodeloc(f, A.ast))
+    if n < 4:
+        raise AnalysisError("only %d column writers count rows in add()" % n)
